@@ -52,14 +52,15 @@ def _dataclass_arguments(decorators: list[Decorator]) -> dict[str, Any]:
     return {}
 
 
-def _field_arguments(attribute: Attribute) -> dict[str, Any]:
+def _field_arguments(attribute: Attribute) -> dict[str, Any] | None:
+    # Arguments of the `field()` call, or `None` when the value is not a `field()` call.
     if attribute.value:
         value = attribute.value
         if isinstance(value, ExprAttribute):
             value = value.last
         if isinstance(value, ExprCall) and value.canonical_path == "dataclasses.field":
             return _expr_args(value)
-    return {}
+    return None
 
 
 @cache
@@ -104,6 +105,8 @@ def _dataclass_parameters(class_: Class) -> list[Parameter]:
 
             # Fetch `field` arguments if any.
             field_args = _field_arguments(member)
+            is_field = field_args is not None
+            field_args = field_args or {}
 
             # Parameter not added to `__init__`, skip it.
             if field_args.get("init") == "False":
@@ -122,7 +125,8 @@ def _dataclass_parameters(class_: Class) -> list[Parameter]:
             if "default_factory" in field_args:
                 default = ExprCall(function=field_args["default_factory"], arguments=[])
             else:
-                default = field_args.get("default", None if field_args else member.value)
+                # A `field()` call without `default` (even without any argument) means no default value.
+                default = field_args.get("default", None if is_field else member.value)
 
             # Add parameter to the list.
             parameters.append(
